@@ -9,3 +9,24 @@ claim("C08",
       "Every slice expression the workload spells is executed through Search / Compile+Search and its result compared with an independent big-integer model of Python slicing; exhaustive for all (len, start, stop, step) in a window around [-len-3, len+3] for len up to 6 (quick) / 10 (thorough), plus 64-bit boundary values in every position, values beyond 64 bits, every non-array operand and typed Go slices. Exploration level: unbounded integers are sampled at the boundaries, not enumerated.",
       "Trusted: ref.PySliceIndices (checked against a table frozen from CPython 3), the Go toolchain, recover() for panics. A compile error is accepted for integers outside int64.",
       "DESIGN.md §4 C08")
+
+claim("C01",
+      "reference-model monitor (independent evaluator, result-set oracle) over an exhaustive enumeration of small core-fragment trees x a 40-document universe, plus seeded random deep trees; panic guard",
+      "Every core-fragment tree with <= 2 operator nodes (3 in thorough) is spelled and run through Search and Compile+Search on every document of a universe in which each key holds each JSON type; each result is compared (value and Go dynamic type) with an independent model of the specification that was calibrated on the official compliance results. Exploration: larger expressions are sampled with a fixed seed, not enumerated.",
+      "Trusted: the reference evaluator /verif/ref (pinned by setup self-tests to the 768 applicable official compliance results), the tree speller (validated by re-parse on the compliance suite).",
+      "DESIGN.md §4 C01")
+claim("C02",
+      "reference-model monitor with member-order nondeterminism as a result set; exhaustive chains of projection steps x a 35-document universe; seeded random nested projections",
+      "All chains of up to 3 (quick) / 4 (thorough) steps over 16 step kinds, 3 heads and 6 terminators are evaluated on 35 documents built to expose phantom entries, kept nulls, wrong flatten depth, wrong filter truthiness and wrong projection scope; the oracle allows exactly the results the specification allows (every member order for object wildcards, content exact).",
+      "Trusted: /verif/ref chain semantics (binding-power rule of C03, calibrated on the compliance suite). Cases with more than 2000 member-order combinations are counted as skipped, not judged.",
+      "DESIGN.md §4 C02")
+claim("C03",
+      "metamorphic parse monitor via hook (AST s-expression of minimal vs fully parenthesised vs whitespace vs redundant-parenthesis spellings) + reference-model monitor for chain-internal scope",
+      "For every operator tree with <= 3 operators (plus samples of larger ones) the five spellings must produce identical ASTs in the same build - equal parse implies equal result on every document, which covers the 'all documents' quantifier; projection scope inside chains, which parentheses cannot express, is decided semantically on scope-discriminating documents against the model.",
+      "Trusted: the minimal speller's precedence table (the one stated in C03), VerifSexpr (hook, compares only parses of the same build).",
+      "DESIGN.md §4 C03")
+claim("C04",
+      "language-membership monitor: Compile vs an ABNF recogniser over every token sequence up to length 4 (quick) / 5 (thorough) over a 26-lexeme alphabet, mutated grammatical spellings beyond; AST well-formedness via hook; whitespace renderings",
+      "Exhaustive comparison of Compile's accept/reject decision with a memoised recogniser of the published ABNF for all 475 254 (quick) / 12 356 630 (thorough) sequences, plus single-token mutations of random grammatical spellings up to 36 tokens; every accepted grammatical sequence is re-compiled without spaces and with mixed whitespace and must give the same AST, and no compiled AST may contain an empty node.",
+      "Trusted: ref.Accepts = the ABNF (calibrated on the compliance suite: 724 accepted, 93 rejected). Lexeme-internal validity (JSON inside literals) is out of scope here (C05/C14/C17).",
+      "DESIGN.md §4 C04")
